@@ -52,6 +52,14 @@ func driveSchnorr(c *ctx) {
 	for _, l := range []int{0, 1, 31, 33, 64} {
 		newPub(randBytes(rng, l))
 	}
+	// x in [n, p): valid field elements that are not canonical scalars (the key is a FIELD element, the bound is p)
+	for _, q := range pointsWithXAboveN(rng, c.scale(4, 30)) {
+		if pk := newPub(be32(q.x)[:]); pk != nil {
+			_ = pk
+		}
+	}
+	newPub(be32(bigN)[:])
+	newPub(be32(add(bigN, 1))[:])
 
 	verify := func(pk *bitcoin.SchnorrPublicKey, msg, sig []byte, vector bool) {
 		out := pk.Verify(msg, sig)
